@@ -50,6 +50,9 @@ def classify(component, what, case):
             pass
         if touch and "heap-use-after-free" in err and any("|d=" in t and "s" in t.split("|d=")[1].split("|")[0] for t in pred):
             return "F24"
+        # the snapshot walks the compiled tree of every implemented module and reads lysc_node.module->name
+        if "heap-use-after-free" in err and "collect_foreign" in err and any(cc.stale_compiled(t) for t in pred):
+            return "F380"
         return None
     if not case.get("model_agrees"):
         return None
@@ -382,6 +385,9 @@ def run(cx):
     # 4. directed: amend targets that are imports only, amended in every order by the failing module
     rng = cx.sub_rng("amend")
     run_batch(cx, [cc.gen_amend_history(rng) for _ in range(cx.n(500, 8000))], "a")
+    # 5. directed: a failing module that augments AND deviates two implemented targets (one of them an import only before)
+    rng = cx.sub_rng("amend2")
+    run_batch(cx, [cc.gen_amend2_history(rng) for _ in range(cx.n(300, 8000))], "b")
     cx.sample(hs[0].spec()[:400])
     cx.exhaustive = False
 
